@@ -351,6 +351,13 @@ func main() {
 			sigs = append(sigs, s)
 		}
 	}
+	// the zero-argument form with ONE result that can be nil (and is: the digest of the empty argument tuple makes
+	// MemNil true at position 0): a nil answer is an answer, f is not asked again
+	for _, rt1 := range []*ty.Ty{ty.Sl(b("int")), ty.P(n(5)), n(11), ty.P(b("int"))} {
+		s := &sig{k: len(sigs), params: nil, res: []*ty.Ty{rt1}, shape: shapeOf(env, nil)}
+		s.pkg = s.k / perPkg
+		sigs = append(sigs, s)
+	}
 	npkgs := (len(sigs) + perPkg - 1) / perPkg
 
 	// ---- ext, p
